@@ -701,6 +701,12 @@ func genC05(r *rand.Rand, run int, _ string) *Scenario {
 			} else {
 				op.BuildFail = chance(r, 0.5)
 				op.BuildSleepNs = pick(r, int64(0), 0, ms, sec)
+
+				// the caller's context may carry a TTL for the value: it says nothing about how long a failure
+				// is remembered (that is FailedUpdateTTL)
+				if chance(r, 0.3) {
+					op.HasCtxTTL, op.CtxTTLNs = true, pick(r, ms, 100*ms, 3600*sec, 24*3600*sec)
+				}
 			}
 		}
 	}
@@ -780,7 +786,7 @@ func (r *foRun) oracleC05() {
 			lo, hi := fb.exitNs, fb.exitNs+int64(float64(f)*0.95)-1000
 
 			for _, b := range r.builds {
-				if b.key == fb.key && b != fb && b.enterNs > lo && b.enterNs < hi && !b.op.op.SkipRead && !b.op.op.HasCtxTTL && !fb.op.op.HasCtxTTL {
+				if b.key == fb.key && b != fb && b.enterNs > lo && b.enterNs < hi && !b.op.op.SkipRead {
 					out.violate("C05.R3", "rebuild-inside-failure-window", "builder for key %q failed at t=%v, yet %s invoked the builder again at t=%v, before FailedUpdateTTL=%v (minus jitter) elapsed", fb.key, dur(fb.exitNs), b.op.id(), dur(b.enterNs), f)
 				}
 			}
@@ -808,6 +814,45 @@ func (r *foRun) oracleC05() {
 						}
 					}
 				}
+			}
+		}
+	}
+
+	// R3 (upper side): once FailedUpdateTTL (plus jitter) has elapsed since the last failure of a key, the failure is
+	// forgotten: a Get that finds no fresh value builds again, it is not answered with the old error.
+	if cfg.FailedUpdateTTLNs != -1 {
+		for _, o := range r.ops {
+			if !o.done || o.err == nil || len(o.builds) > 0 || o.op.SkipRead || containsStr(o.locksAtInvoke, o.key) {
+				continue
+			}
+
+			var et ErrTok
+			if !errors.As(o.err, &et) || et.K != o.key || strings.HasPrefix(et.ID, "be-") || et.ID == "prefail" {
+				continue
+			}
+
+			var last *buildRec
+
+			for _, b := range r.builds {
+				if b.key == o.key && b.fail && b.exited && b.exit < o.inv && (last == nil || b.exit > last.exit) {
+					last = b
+				}
+			}
+
+			overlap := false
+
+			for _, p := range r.ops {
+				if p != o && p.key == o.key && p.inv < o.ret && (!p.done || p.ret > o.inv) {
+					overlap = true
+				}
+			}
+
+			if last == nil || overlap {
+				continue
+			}
+
+			if o.invNs-last.exitNs > int64(float64(f)*1.06)+1000 {
+				out.violate("C05.R3", "failure-outlived-failed-update-ttl", "%s Get(%q) was answered with the cached error %v although the last failed build of the key ended %v earlier and FailedUpdateTTL is %v", o.id(), o.key, o.err, dur(o.invNs-last.exitNs), f)
 			}
 		}
 	}
